@@ -44,18 +44,30 @@ def gen_secret(rng, cls, plain_alpha=False, allow_all_digit_type7=False, reserve
     if cls == "text":
         alpha = _TEXT_ALPHA_PLAIN if plain_alpha else _TEXT_ALPHA
         while True:
-            s = rng.choice(_NONHEX) + _rand(rng, alpha, 9, 22) + rng.choice(_NONHEX)
+            r = rng.random()
+            if r < 0.1:
+                # starts with a digit (still clear text: it carries letters outside a-f)
+                s = rng.choice(string.digits) + rng.choice(_NONHEX) + _rand(rng, alpha, 6, 20) + rng.choice(_NONHEX)
+            elif r < 0.2:
+                s = rng.choice(_NONHEX) + _rand(rng, alpha, 3, 6) + rng.choice(_NONHEX)
+            elif r < 0.25:
+                s = rng.choice(_NONHEX) + _rand(rng, alpha, 30, 60) + rng.choice(_NONHEX)
+            else:
+                s = rng.choice(_NONHEX) + _rand(rng, alpha, 9, 22) + rng.choice(_NONHEX)
             if not re.search(r"(?i)password|secret|key|community", s):
                 return {"cls": cls, "text": s, "cores": [s]}
     if cls == "aws32":
         s = rng.choice(_NONHEX) + _rand(rng, string.ascii_letters + string.digits + "_.", 30, 30) + rng.choice(_NONHEX)
         return {"cls": cls, "text": s, "cores": [s]}
     if cls == "numeric":
-        s = _rand(rng, string.digits, 10, 20)
-        return {"cls": cls, "text": s, "cores": [s]}
+        r = rng.random()
+        s = _rand(rng, string.digits, 5, 9) if r < 0.12 else _rand(rng, string.digits, 21, 45) if r < 0.2 else _rand(rng, string.digits, 10, 20)
+        return {"cls": cls, "text": s, "cores": [s] if len(s) >= 8 else []}
     if cls == "hex":
         while True:
-            s = rng.choice("23456789abcdefABCDEF") + _rand(rng, "0123456789abcdef" if rng.random() < 0.5 else "0123456789ABCDEF", 11, 30)
+            r = rng.random()
+            lo, hi = (4, 10) if r < 0.12 else (31, 70) if r < 0.2 else (11, 30)
+            s = rng.choice("23456789abcdefABCDEF") + _rand(rng, "0123456789abcdef" if rng.random() < 0.5 else "0123456789ABCDEF", lo, hi)
             if re.search(r"[a-fA-F]", s) and not re.match(r"^[01][0-9]([0-9a-fA-F]{2})+$", s):
                 return {"cls": cls, "text": s, "cores": [s]}
     if cls == "type7":
